@@ -1098,8 +1098,12 @@ class Server(utils.EventEmitter):
                 )
                 return
             length = len(attribute_value)
-            # Check the attribute value size
-            max_attribute_size = min(bearer.att_mtu - 3, 251)
+            # Check if there is enough space for the length of one more value
+            if pdu_space_available < 2:
+                break
+            # Check the attribute value size: the last value is truncated to the space
+            # that is left (the length that is sent is still the full length)
+            max_attribute_size = min(pdu_space_available - 2, 251)
             if len(attribute_value) > max_attribute_size:
                 # We need to truncate
                 attribute_value = attribute_value[:max_attribute_size]
